@@ -549,7 +549,7 @@ pub fn run(args: Args) {
     level_up(&t2w2, 2, &mut t3w2_new);
     t3w2_new.retain(|f| f.depth() == 3);
     let maps = fixed_maps();
-    let nrand: u64 = tier.pick(400_000, 6_000_000);
+    let nrand: u64 = tier.pick(250_000, 6_000_000);
     let nbig: u64 = tier.pick(0, 1);
 
     let t2w3r = &t2w3;
